@@ -1,4 +1,4 @@
--- PINNED by bin/pin_tables: copy of Gen/Dispatch.lean as generated from /repo at 7ba0a04 — regenerate, do not edit
+-- PINNED by bin/pin_tables: copy of Gen/Dispatch.lean as generated from /repo at 596f79e — regenerate, do not edit
 namespace Ggql.Pinned
 def dispatchOrder : List String := ["resolver", "any", "reflect"]
 def opFallbackAnyName : Bool := false
@@ -9,6 +9,9 @@ def dupScalarDropped : Bool := false
 def dirArgWrapperAccepted : Bool := false
 def descRaw : Bool := false
 def assureOnce : Bool := false
+def dirRequiredUnchecked : Bool := false
+def dirRefTypeFirst : Bool := false
+def extendSchemaNeedsSchema : Bool := false
 def dupKeyOverwrites : Bool := false
 def unionFirstCome : Bool := false
 def ifaceNeedsBound : Bool := false
